@@ -62,6 +62,9 @@ class ParConsSuite(Suite):
             cases.append({"s": rng.choice([gen.UNIFYING, gen.UNIFYING, gen.UNIFYING_HALF]), "D": isolated_member_dataset(rng)})
         for _ in range(6 if tier == "quick" else 40):       # two hard components of sizes 4 and 3 (no global brute force: 7 elements)
             cases.append({"s": rng.choice([gen.UNIFYING, gen.GENERIC, gen.EXTENDED]), "D": two_cycles_dataset(rng)})
+        for _ in range(20 if tier == "quick" else 250):        # elements that can be tied two by two along a chain but not all together
+            D, s = chain_tie_dataset(rng)
+            cases.append({"s": s, "D": D})
         for _ in range(120 if tier == "quick" else 1200):      # four strict rankings: many pairs are evenly split (no arc either way)
             n = rng.choice([4, 5, 5, 5, 6]) if tier == "quick" else rng.randint(4, 6)
             D = []
